@@ -1191,10 +1191,11 @@ class XsdUnion(XsdSimpleType):
                     xsd_type = mt
             else:
                 if patterns and isinstance(obj, (str, bytes)):
-                    try:
-                        patterns(mt.normalize(obj))
-                    except XMLSchemaValidationError as err:
-                        context.validation_error(validation, self, err)
+                    for facet in patterns:
+                        try:
+                            facet(mt.normalize(obj))
+                        except XMLSchemaValidationError as err:
+                            context.validation_error(validation, self, err)
                 return result
 
         if validation == 'skip':
@@ -1202,10 +1203,11 @@ class XsdUnion(XsdSimpleType):
         elif validation == 'lax' and xsd_type is not None:
             result = xsd_type.raw_decode(obj, validation, context)
             if patterns and isinstance(obj, (str, bytes)):
-                try:
-                    patterns(xsd_type.normalize(obj))
-                except XMLSchemaValidationError as err:
-                    context.validation_error(validation, self, err)
+                for facet in patterns:
+                    try:
+                        facet(xsd_type.normalize(obj))
+                    except XMLSchemaValidationError as err:
+                        context.validation_error(validation, self, err)
             return result
 
         msg = _("invalid value {!r}").format(obj)
@@ -1225,10 +1227,11 @@ class XsdUnion(XsdSimpleType):
                     xsd_type = mt
             else:
                 if patterns and isinstance(result, str):
-                    try:
-                        patterns(mt.normalize(result))
-                    except XMLSchemaValidationError as err:
-                        context.validation_error(validation, self, err)
+                    for facet in patterns:
+                        try:
+                            facet(mt.normalize(result))
+                        except XMLSchemaValidationError as err:
+                            context.validation_error(validation, self, err)
                 return result
 
         if validation == 'skip':
@@ -1236,10 +1239,11 @@ class XsdUnion(XsdSimpleType):
         elif validation == 'lax' and xsd_type is not None:
             result = xsd_type.raw_encode(obj, validation, context)
             if patterns and isinstance(result, str):
-                try:
-                    patterns(result)
-                except XMLSchemaValidationError as err:
-                    context.validation_error(validation, self, err)
+                for facet in patterns:
+                    try:
+                        facet(result)
+                    except XMLSchemaValidationError as err:
+                        context.validation_error(validation, self, err)
             return result
 
         msg = _("no type suitable for encoding the object")
@@ -1461,7 +1465,9 @@ class XsdAtomicRestriction(XsdAtomic):
                     except XMLSchemaValidationError as err:
                         context.validation_error(validation, self, err)
                 elif context.patterns is None:
-                    context.patterns = self.patterns
+                    context.patterns = [self.patterns]
+                else:
+                    context.patterns.append(self.patterns)
 
         if isinstance(self.base_type, XsdSimpleType):
             base_type = self.base_type
@@ -1503,9 +1509,11 @@ class XsdAtomicRestriction(XsdAtomic):
         elif isinstance(obj, (str, bytes)):
             obj = self.normalize(obj)
 
-        if self.patterns:
-            if context.patterns is None and isinstance(self.primitive_type, XsdUnion):
-                context.patterns = self.patterns
+        if self.patterns and isinstance(self.primitive_type, XsdUnion):
+            if context.patterns is None:
+                context.patterns = [self.patterns]
+            else:
+                context.patterns.append(self.patterns)
 
         result = base_type.raw_encode(obj, validation, context)
 
